@@ -14,7 +14,8 @@ ANCHORS = [
 REQUIRED_MONITORS = ["truth@setup.cov_mm", "truth@setup.dat", "truth@SSI_fast", "truth@SSI_legacy", "mpe@setup"]
 ALL_STATES = [f"{s}|{r}|{b}|{m}" for s in ("real", "complex") for r in ("ref=all", "ref=subset", "ref=single")
               for b in ("br=nu+1", "br>nu+1") for m in ("cov_mm", "dat")] + ["mpe: two modes inside each other's default tolerance"]
-REQUIRED_STATES = ["mpe: two modes inside each other's default tolerance", "lowest mode below 0.01 fs, short record"]
+REQUIRED_STATES = ["mpe: two modes inside each other's default tolerance", "lowest mode below 0.01 fs, short record", "mpe: requests not in ascending order",
+                   "second analysis on the same array object"]
 RULE = ("seeded random systems (m 1..6, real/complex shapes, xi 0.2..8 %, f in (0.02,0.45) fs, 2..8 channels, any reference "
         "subset whose numerical observability index nu is finite, br >= nu+1, records 400..3000 samples); a case is "
         "non-trivial when the guards hold (cond(H) <= 1e8, sigma_2m/sigma_2m+1 >= 1e6) and the monitors judged it; distinct = "
@@ -154,8 +155,12 @@ def run_setup(ctx, case, rng, default_hc):
     ref_arg = None if (len(ref) == nch and ref == sorted(ref) and rng.random() < 0.5) else ref
     if ref_arg is None:
         ref = list(range(nch))
+    shared = rng.random() < 0.5  # both analyses read the same array object (what a user session does): a run must leave the records alone
+    data_shared = Y.T.copy()
+    if shared:
+        ctx.state("second analysis on the same array object")
     for meth, cls in (("cov_mm", SSIcov), ("dat", SSIdat)):
-        data = Y.T.copy()
+        data = data_shared if shared else Y.T.copy()
         ss = SingleSetup(data, fs)
         kw = dict(name="a", br=br, ordmax=ordmax, method=meth, ref_ind=ref_arg)
         if not default_hc:
@@ -163,6 +168,7 @@ def run_setup(ctx, case, rng, default_hc):
         alg = cls(**kw)
         ss.add_algorithms(alg)
         ss.run_by_name("a")
+        ctx.check(np.array_equal(data, Y.T), "setup:run_modified_the_records", f"{cls.__name__}.run changed the array holding the records")
         r = alg.result
         tol = guards(ctx, r.H, m)
         if tol is None:
@@ -177,6 +183,24 @@ def run_setup(ctx, case, rng, default_hc):
         # extraction at that order
         close = m >= 2 and np.min(np.diff(fn) / fn[:-1]) < 0.05
         rtol_mpe = 5e-2 if rng.random() < 0.5 else 1e-3  # the default tolerance and a tight one
+        fn_true, xi_true, Phi_true = fn, xi, Phi
+        if m >= 2 and rng.random() < 0.5:
+            # requests listed in another order than ascending: mode k of the answer is request k, in frequency, damping AND shape
+            perm = rng.permutation(m)
+            if not np.array_equal(perm, np.arange(m)):
+                fn, xi, Phi = fn_true[perm], xi_true[perm], Phi_true[:, perm]
+                ctx.state("mpe: requests not in ascending order")
+        try:
+            mpe_block(ctx, ss, alg, r, fn, xi, Phi, o, rtol_mpe, m, nch, tol, meth, close)
+        finally:
+            fn, xi, Phi = fn_true, xi_true, Phi_true
+        if ok and len(ctx.samples) < 2:
+            ctx.sample({"entry": f"SingleSetup/{cls.__name__}", "m": m, "channels": nch, "ref_ind": ref_arg, "br": br, "nu": nu,
+                        "fs": fs, "N": N, "complex_shapes": cplx, "fn": [float(x) for x in fn], "xi": [float(x) for x in xi], "tol": tol})
+
+
+def mpe_block(ctx, ss, alg, r, fn, xi, Phi, o, rtol_mpe, m, nch, tol, meth, close):
+    if True:
         ss.mpe("a", sel_freq=[float(f) for f in fn], order=o, rtol=rtol_mpe)
         if close and rtol_mpe == 5e-2:
             ctx.state("mpe: two modes inside each other's default tolerance")
@@ -185,7 +209,7 @@ def run_setup(ctx, case, rng, default_hc):
         Fn = np.atleast_1d(res.Fn)
         if not ctx.check(Fn.shape == (m,) and np.shape(res.Xi) == (m,) and np.shape(res.Phi) == (nch, m), "setup:mpe_shape",
                          lambda: f"mpe at order 2m returned shapes Fn{np.shape(res.Fn)} Xi{np.shape(res.Xi)} Phi{np.shape(res.Phi)} for m={m}, nch={nch}"):
-            continue
+            return
         for k in range(m):
             rows = np.where(np.isfinite(r.Fn_poles[:, o]))[0]
             cand = [i for i in rows if r.Fn_poles[i, o] == Fn[k] and r.Xi_poles[i, o] == res.Xi[k]
@@ -197,9 +221,6 @@ def run_setup(ctx, case, rng, default_hc):
             em = 1 - max(gen.mac(res.Phi[:, k], Phi[:, k]), gen.mac(res.Phi[:, k], np.conj(Phi[:, k])))
             ctx.check(ef <= tol and ex <= tol and em <= tol, "setup:mpe_accuracy",
                       lambda: f"mpe mode {k}: err f={ef:.2e} xi={ex:.2e} 1-MAC={em:.2e} tol={tol:.1e} ({meth})")
-        if ok and len(ctx.samples) < 2:
-            ctx.sample({"entry": f"SingleSetup/{cls.__name__}", "m": m, "channels": nch, "ref_ind": ref_arg, "br": br, "nu": nu,
-                        "fs": fs, "N": N, "complex_shapes": cplx, "fn": [float(x) for x in fn], "xi": [float(x) for x in xi], "tol": tol})
 
 
 def run_fn(ctx, case, rng):
